@@ -13,7 +13,8 @@ RULE = ('70% E1 histories (pure scheduler API) and 30% E2 histories (Master + Zk
         'freeze with and without an app list. Non-trivial = some instance '
         'was kept through >=1 cycle on a down server and lost that placement '
         'in a later cycle. distinct = canonical JSON.'
-        ' Since rounds 6-7: the blacklist clause is judged by ground truth (the ZooKeeper blacklist node as the master last loaded it, fnmatch by the harness) with overlapping patterns added and cleared; frozen loaded server that goes down later (retention counts from the down moment); presence flips within one event.')
+        ' Since rounds 6-7: the blacklist clause is judged by ground truth (the ZooKeeper blacklist node as the master last loaded it, fnmatch by the harness) with overlapping patterns added and cleared; frozen loaded server that goes down later (retention counts from the down moment); presence flips within one event.'
+        ' Since round 11 (E2): ground truth of admin freezes - a server the admin froze (event processed at a quiescence since) receives no new instance, whatever state the model holds; stateburst macro.')
 ASSUMPTIONS = [
     'virtual clock replaces treadmill.scheduler.time',
     'down = presence vanished (Loader.adjust_presence); the harness records '
